@@ -82,7 +82,10 @@ package pool
 //@ ensures [refused-no-trace] !(authOK && nonceOK) ==> effects == old(effects) && p.Store.nonce == old(p.Store.nonce)
 
 //@ func (*VipnodePool).Update
-//@ property C04 C06
+//@ property C02 C04 C06
+//@ callreq Manager.OnUpdate [bills-previous-record] {C02} : arg0 == old(p.Store.node[store.NodeID(nodeID)])
+//@ callreq Manager.OnUpdate [bills-tracked-peers] {C02 C11} : arg1 == active
+//@ callreq disconnectPeers [cuts-off-tracked-peers] {C03} : arg1 == nodeID && arg2 == active
 //@ requires !authOK && !nonceOK && !held(p.mu)
 //@ ensures [authorised] effects != old(effects) ==> authorised("vipnode_update", nodeID, nonce) && verifiedUpdate(authArgs, req)
 //@ ensures [refused-error]    !(authOK && nonceOK) ==> typeis(err, VerifyFailedError)
